@@ -7,7 +7,7 @@ RULE = ("one case = one session on a fresh trie (emitter or mqtt matcher): sub /
         "from 2 contracts and a 4-word alphabet plus '+', '#' and $share groups, depth <= 5, 1-6 subscribers each owning "
         "several filters, duplicate subscribes, unsubscribes of absent pairs, permuted and repeated levels; every session "
         "ends by removing every subscription and dumping (node count must be 1 again). conc = 8 goroutines on disjoint "
-        "pairs with concurrent lookups, compared with the sequential result. non-trivial = distinct (op, answer) pair")
+        "pairs with concurrent lookups, compared with the sequential result; nested = a subscriber below a branch that another goroutine keeps creating and pruning must always find itself.  non-trivial = distinct (op, answer) pair")
 TRUSTED = ["sync.RWMutex (all trie methods run under the one lock; the theorems are about sequential histories)",
            "the share-group pick (xorshift + map iteration) is a parameter: lookups with share groups are judged by the predicate 'direct receivers plus exactly one member of every matching group'"]
 ASSUMPTIONS = ["subscriber identity is the 32-bit murmur of its id (as in the code); two ids with equal hash are a recorded finding"]
@@ -97,4 +97,5 @@ def gen(rng, tier):
         ops.append("reset " + rng.choice(["mqtt", "emitter"]))
         ops.append("conc %d" % rng.getrandbits(20))
         ops.append("concshare %d" % budget(tier, 4000, 100000))
+        ops.append("nested %d" % budget(tier, 20000, 300000))
     return ops
